@@ -238,11 +238,16 @@ def run(ctx: Ctx, rep: Report) -> None:
         elif cls is not None and ctx.r.is_subclass(cls, mpm_base) and st.path == "self.disco":
             ok_shape = isinstance(st.value, ast.Await) and isinstance(st.value.value, ast.Call) and isinstance(st.value.value.func, ast.Attribute) and st.value.value.func.attr == "send_discovery_message"
             reason = "discovery cache: derived from the agent only; repeated discovery is permitted by the property" if ok_shape else None
-        elif cls is not None and ctx.r.is_subclass(cls, mpm_base) and st.path == "self.disco_received_at":
-            ok_shape = isinstance(st.value, ast.Call) and any(c.startswith("ext:time.") for c in ctx.r.callee_names(fn, st.value))
-            reason = "local reference time of the discovery; clock derived" if ok_shape else None
+        elif cls is not None and ctx.r.is_subclass(cls, mpm_base) and st.path.startswith("self.") and isinstance(st.value, ast.Call) and not st.value.args and any(c.startswith("ext:time.") for c in ctx.r.callee_names(fn, st.value)):
+            reason = "a local clock reading (the reference time of the discovery): derived from the clock only, whatever the attribute is called"
+        elif cls is not None and st.path.startswith("self.") and st.path.count(".") == 1 and attribute_never_read(ctx, st.path.split(".", 1)[1]):
+            reason = "write-only diagnostics: no code of the package ever reads this attribute, so nothing can travel through it from one operation to another"
+            deps = []
         elif cls is not None and ctx.r.is_subclass(cls, sm_base) and fn.name == "set_engine_timing":
             reason = "timing cache keyed by engine id; its values are the discovery data handed in by the MPM (C10-R2), idempotent across operations"
+            deps = []
+        elif cls is not None and st.path.startswith("self.") and not class_instantiated_in_repo(ctx, cls) and cls.name not in ("Client", "PyWrapper"):
+            reason = "method of a record class the library never instantiates itself (a statistics / observer object created and owned by the library user, handed in through an optional parameter)"
             deps = []
         elif callers_all_are_timing_setters(ctx, fn, sm_base):
             reason = "timing cache keyed by engine id, written through a helper that only the security model's set_engine_timing calls (C10-R2 decides what is stored and read back)"
@@ -358,6 +363,55 @@ def check_no_memoised_coroutines(ctx: Ctx, rep: Report) -> None:
             continue
         memo = memoising_decorators(fn.node)
         rep.check(not memo, "C14-R5", fn.site(), f"{fn.qualname} ({'coroutine function' if fn.is_async else 'generator'}) is not memoised", f"decorated with {memo}", key=f"{fn.key}|memoised-coroutine")
+
+
+def attribute_never_read(ctx: Ctx, attr: str) -> bool:
+    """No `<anything>.<attr>` is loaded (and no getattr(.., '<attr>') written) anywhere in the repository's modules."""
+    cache = ctx.__dict__.setdefault("_c14_never_read", {})
+    if attr not in cache:
+        read = False
+        for mod in ctx.u.repo_modules():
+            for n in ast.walk(mod.tree):
+                if isinstance(n, ast.Attribute) and n.attr == attr and isinstance(n.ctx, ast.Load):
+                    read = True
+                elif isinstance(n, ast.Constant) and n.value == attr:
+                    read = True  # getattr / __dict__ access by name: be careful
+            if read:
+                break
+        cache[attr] = not read
+    return cache[attr]
+
+
+def class_instantiated_in_repo(ctx: Ctx, cls: ClassInfo) -> bool:
+    """Is there any constructor call of *cls* (or of a subclass) in the repository's own code, plug-in factories included?"""
+    cache = ctx.__dict__.setdefault("_c14_instantiated", {})
+    if cls.key in cache:
+        return cache[cls.key]
+    found = False
+    for fn in ctx.u.functions.values():
+        if fn.module.external:
+            continue
+        for n in own_nodes(fn.node):
+            if isinstance(n, ast.Call):
+                k = ctx.r.resolve_class(fn.module, n.func)
+                if k is not None and ctx.r.is_subclass(k, cls):
+                    found = True
+                    break
+        if found:
+            break
+    if not found:
+        # module-level constructor calls (defaults, singletons) and classes handed out by plug-in factories
+        for mod in ctx.u.repo_modules():
+            for n in ast.walk(mod.tree):
+                if isinstance(n, ast.Call):
+                    k = ctx.r.resolve_class(mod, n.func)
+                    if k is not None and ctx.r.is_subclass(k, cls):
+                        found = True
+                        break
+            if found:
+                break
+    cache[cls.key] = found
+    return found
 
 
 def callers_all_are_timing_setters(ctx: Ctx, fn: FuncInfo, sm_base: ClassInfo, depth: int = 0) -> bool:
